@@ -125,7 +125,9 @@ class CyclicCodeEncoder(SystematicLinearBlockCodeEncoder):
 
         # Extract the parity submatrix for systematic encoding
         k, n = self._dimension, self._length
-        parity_submatrix = generator_matrix[:, k:n] if information_set == "left" else generator_matrix[:, 0 : n - k]
+        # Row i of the systematic generator is X^(m+i) + (X^(m+i) mod g): the parity part occupies
+        # the coefficient positions 0..m-1 whatever the requested information set is
+        parity_submatrix = generator_matrix[:, 0 : n - k]
         super().__init__(parity_submatrix=parity_submatrix, information_set=information_set, **kwargs)
 
         # Register additional buffers specific to cyclic codes
